@@ -61,6 +61,11 @@ def reader_tables(src):
     for (nm, flag), a in tab.items():
         hs = T.heads(a["body"], helpers)
         names[(nm, flag)] = {bv.get(h, T.snake_to_variant(h)) for h in hs if not h.startswith("?")}
+    # an arm guarded by something else than the DISTINCT flag (`"log" if flat_args.len() == 1 => ..`) reads SOME calls of that name: the name reads back as
+    # any of the operators of its arms, exactly as when the test is an `if` inside a single arm
+    for (nm, flag), vs in list(names.items()):
+        if isinstance(flag, str) and flag.startswith("guard:"):
+            names[(nm, None)] = set(names.get((nm, None), set())) | vs
     return fs[0], names, helpers, bv
 
 
@@ -470,7 +475,9 @@ def e9(rep, src):
         necessary="without parentheses an operand that binds less tightly than the operator (LIKE, IN, IS NULL, another comparison) is regrouped by the SQL parser: the rendered text means something else",
     )
     for nm, slots in (("binary_op_builder", ("left", "right")), ("unary_op_builder", ("expr",))):
-        f = src.one_fn(name=nm, file="dialect_translation/mod.rs")
+        from .canon import canon_view
+
+        f = canon_view(src.one_fn(name=nm, file="dialect_translation/mod.rs"), src, keep=("binary_op_builder", "unary_op_builder"))  # a private `nested(e)` helper is read through
         key = "dialect_translation::" + nm
         t = f.body["stmts"][-1]["e"] if f.body["stmts"] and f.body["stmts"][-1]["k"] == "expr" else None
         ok = t is not None and t["k"] == "struct" and len(f.body["stmts"]) == 1
@@ -552,6 +559,18 @@ def e11(rep, src):
         f = fs[0]
         param = [p["pat"]["name"] for p in f.params if not p.get("self") and p["pat"]["k"] == "ident"][0]
         ms = [m for m in find(f.body, "match")]
+        if not ms:
+            # the arm table may live in a helper of the file the filter is handed to (`filter_split(last_split, filter)`): it is read there
+            for c in list(find(f.body, "call")) + list(find(f.body, "mcall")):
+                nm = (path_of(c["f"]) or "").split("::")[-1] if c["k"] == "call" else c["m"]
+                pos = [i for i, a in enumerate(c["args"]) if path_of(a) == param]
+                hs = [h for h in src.find_fns(name=nm, file="relation/builder.rs") if h.body and not h.test] if nm and pos else []
+                if len(hs) == 1:
+                    hp = [p["pat"]["name"] for p in hs[0].params if not p.get("self") and p["pat"]["k"] == "ident"]
+                    if pos[0] < len(hp) and len(list(find(hs[0].body, "match"))) == 1:
+                        f, param = hs[0], hp[pos[0]]
+                        ms = [m for m in find(f.body, "match")]
+                        break
         if len(ms) != 1:
             rep.undecidable("E11", ty + "::filter", "expected one match over the last split", f.where())
             continue
@@ -885,6 +904,18 @@ def e15(rep, src):
                 for nme in names:
                     if nme != "reduce":
                         origin[nme] = src_o
+        # a vector filled by pushes inside `for .. in self.named_exprs { .. v.push(..) }` comes from that operand
+        for lp in find(a["body"], "for"):
+            t = show(lp["e"], 0)
+            src_o = "self" if re.search(r"\bself\.(named_exprs|order_by|filter)\b", t) else ("other" if re.search(r"\b%s\.(named_exprs|order_by|filter)\b" % re.escape(other), t) else None)
+            if src_o:
+                for pm in find(lp["body"], "mcall"):
+                    if pm["m"] == "push" and path_of(pm["recv"]):
+                        origin[path_of(pm["recv"])] = src_o
+        local_init = {}
+        for l in find(a["body"], "let"):
+            if l["pat"]["k"] == "ident" and l.get("init") is not None:
+                local_init.setdefault(l["pat"]["name"], []).append(l["init"])
         news = [c for c in find(a["body"], "call") if is_call_to(c, "Map::new") and len(c["args"]) == 4]
         if len(news) != 1:
             rep.undecidable("E15", "Map::and%s" % arm, "expected one Map::new(..) in the arm", "src/expr/split.rs:%d" % a["l"])
@@ -903,6 +934,8 @@ def e15(rep, src):
 
         for idx, what in ((0, "named_exprs"), (2, "order_by")):
             e = news[0]["args"][idx]
+            if e["k"] == "path" and len(e["segs"]) == 1 and len(local_init.get(e["segs"][0], [])) == 1 and any(m["m"] == "chain" for m in find(local_init[e["segs"][0]][0], "mcall")):
+                e = local_init[e["segs"][0]][0]  # `let named_exprs = a.chain(b).collect(); Map::new(named_exprs, ..)`
             ch = [m for m in find(e, "mcall") if m["m"] == "chain"]
             key = "Map::and%s@%s" % (arm, what)
             if len(ch) != 1:
@@ -1041,6 +1074,14 @@ def e20(rep, src):
                 if side == "render" and pv[0] != "Cross":
                     binds = list(pat_binds(pt))
                     txt = show(b[2], 0).replace(" ", "")
+                    # a local closure `let on = |c| ast::JoinConstraint::On(self.expr(c));` applied to the bound condition is the same term
+                    for lt in find(f.body, "let"):
+                        if lt["pat"]["k"] == "ident" and lt.get("init") is not None and lt["init"]["k"] == "closure" and len(lt["init"]["params"]) == 1 and binds:
+                            cp = lt["init"]["params"][0]
+                            cpn = cp.get("name") or (cp.get("pat") or {}).get("name")
+                            if cpn and ("%s(%s)" % (lt["pat"]["name"], binds[0])) in txt:
+                                body_t = show(lt["init"]["body"], 0).replace(" ", "")
+                                txt = txt.replace("%s(%s)" % (lt["pat"]["name"], binds[0]), re.sub(r"(?<![A-Za-z0-9_])%s(?![A-Za-z0-9_])" % re.escape(cpn), binds[0], body_t))
                     if not (binds and ("self.expr(%s)" % binds[0]) in txt and "JoinConstraint::On(" in txt):
                         rep.violation("E20", key + "@on", "the ON condition of a %s join is not rendered as On(self.expr(<the node's condition>)): %s" % (pv[0], show(b[2], 90)), "src/%s:%d" % (f.file, a["l"]))
 
@@ -1055,24 +1096,27 @@ def e21(rep, src):
     fs = [f for f in src.find_fns(name="table_factor") if f.file.startswith("dialect_translation/") and f.body and not f.test]
     if not fs:
         raise Anchor("RelationToQueryTranslator::table_factor not found")
-    for f in fs:
-        ms = [m for m in find(f.body, "match")]
+    from .canon import canon_view
+
+    for f0 in fs:
+        f = canon_view(f0, src, helpers=False, iflet=True)  # `if let Relation::Table(t) = relation { .. } else { .. }` and named locals are read through
         key = f.qual
-        arms = ms[0]["arms"] if ms else []
-        tab = [a for a in arms if any(p["k"] == "tuplestruct" and p["path"]["segs"][-2:] == ["Relation", "Table"] for p in walk(a["pat"]))]
+        tab = []
+        for m in find(f.body, "match"):
+            for a in m["arms"]:
+                if any(p["k"] == "tuplestruct" and p["path"]["segs"][-2:] == ["Relation", "Table"] for p in walk(a["pat"])):
+                    tab.append(a)
         if len(tab) != 1:
-            rep.undecidable("E21", key, "no `Relation::Table(table)` arm in table_factor", f.where())
+            rep.undecidable("E21", key, "expected one `Relation::Table(table)` case in table_factor, found %d" % len(tab), f.where())
             continue
         a = tab[0]
         bv = list(pat_binds(a["pat"]))
-        names = [fl["e"] for x in walk(a["body"]) if x["k"] == "struct" and x["path"]["segs"][-1] == "Table" for fl in x["fields"] if fl["name"] == "name" and fl.get("e") is not None]
-        t = show(names[0], 0).replace(" ", "") if names else ""
-        ok = bool(bv) and ("self.identifier(%s.path())" % bv[0]) in t and "ObjectName(" in t
-        rep.instance("E21", key + "@table", {"fn": f.qual, "table_name": show(names[0], 80) if names else None, "by_path": ok})
+        t = show(a["body"], 0).replace(" ", "")
+        ok = bool(bv) and ("self.identifier(%s.path())" % bv[0]) in t and ("%s.name()" % bv[0]) not in t
+        rep.instance("E21", key + "@table", {"fn": f.qual, "table_case": show(a["body"], 100), "by_path": ok})
         if not ok:
-            rep.violation("E21", key + "@table", "a base table is not referred to by `self.identifier(<table>.path())`: %s" % (show(names[0], 80) if names else "no name field"), "src/%s:%d" % (f.file, a["l"]))
-        rest = [x for x in arms if x is not a]
-        rep.instance("E21", key + "@other", {"arms": len(rest)}, nontrivial=False)
+            rep.violation("E21", key + "@table", "a base table is not referred to by `self.identifier(<table>.path())`: %s" % show(a["body"], 100), "src/%s:%d" % (f.file, a["l"]))
+        rep.instance("E21", key + "@other", {"arms": "others"}, nontrivial=False)
 
 
 def e19(rep, src):
